@@ -203,6 +203,18 @@ fn new_string<'b, B: BumpAllocatorTypedScope<'b> + Clone>(ctx: &mut Ctx, bump: &
             }
         }
         1 => match op.a[0] % 3 {
+            0 if (op.a[0] / 3) % 2 == 1 => {
+                // `from_uninit`: an uninitialised byte slice becomes the whole capacity of an empty fixed string
+                let r = ctx.call(op, || bump.try_alloc_uninit_slice::<u8>(n).map(FixedBumpString::from_uninit).map_err(drop));
+                let r = settle(ctx, r, "FixedBumpString::from_uninit");
+                if let Some(x) = &r {
+                    ctx.stats.probe("fixed.from_uninit");
+                    if x.capacity() != n || !x.is_empty() {
+                        ctx.viol("C09/conversion-contents", format!("FixedBumpString::from_uninit of {n} bytes: len {} capacity {}", x.len(), x.capacity()));
+                    }
+                }
+                r.map(|x| (AnyS::Fixed(x), String::new()))
+            }
             0 => {
                 let r = ctx.call(op, || if try_ { FixedBumpString::try_with_capacity_in(n, bump).map_err(drop) } else { Ok(FixedBumpString::with_capacity_in(n, bump)) });
                 settle(ctx, r, "FixedBumpString::with_capacity_in").map(|x| (AnyS::Fixed(x), String::new()))
